@@ -151,8 +151,15 @@ def programs(draw, tier):
     domA = "any"
     m = n if draw(st.integers(0, 2)) else draw(st.integers(1, 5))
     HB = None
+    same = False
     if first in BINARY:
         HB = draw(st.sampled_from(names))
+        if first in ("add", "sub", "mul", "matmul") and draw(st.integers(0, 5)) == 0:
+            # both operands of the SAME class: the class-specific overrides of products / sums of two of their own kind
+            # (diagonal @ diagonal, permutation @ permutation, triangular @ triangular, Kronecker + Kronecker, ...)
+            HB, same = HA, True
+            if first == "matmul":
+                m = n
         if first == "mul" or (first in ("add",) and HB in ROOTFORM) or HB in ("Chol", "Root", "LowRankRoot", "Mul", "PsdSum", "SumKronecker", "LowRankRootAddedDiag"):
             domA = "psd" if first in ("mul", "add") else domA
         if first == "mul":
@@ -175,10 +182,13 @@ def programs(draw, tier):
     shape = list(batch) + [m, n]
     if first in BINARY:
         bb = gen.sub_batch(draw, batch)
+        if same and batch and any(x > 1 for x in batch) and draw(st.booleans()):
+            # same number of batch dimensions, singletons where the other operand has a size > 1
+            bb = tuple(1 if (x > 1 and draw(st.booleans())) else x for x in batch)
         if first in ("add", "sub", "radd_tensor", "rsub_tensor", "mul"):
             bm, bn = m, n
         elif first == "matmul":
-            bm, bn = n, draw(st.integers(1, 4))
+            bm, bn = n, (n if same and m == n else draw(st.integers(1, 4)))
         else:  # cat
             dim = draw(st.sampled_from([-1, -2] + list(range(len(batch)))))
             bshape = list(shape)
@@ -202,6 +212,8 @@ def programs(draw, tier):
                 B = gen.mk_dense(draw, cfg, "any", bm, bn, bb, 1)
             operands.append({"kind": "op", "recipe": B})
         st0 = {"k": first, "a": 0, "b": 1}
+        if same and m == n and bm == bn == n and (first == "matmul" or (first in ("add", "sub") and A["op"] not in ROOTFORM and operands[1]["recipe"]["op"] not in ROOTFORM)) and draw(st.booleans()):
+            st0 = {"k": first, "a": 1, "b": 0}  # the operand with the (possibly) smaller batch shape on the left
         if first == "cat":
             st0["dim"] = dim
         steps.append(st0)
